@@ -148,8 +148,23 @@ def check(ctx, rep):
             if not t['args']:
                 break
             cur = t['args'][0]
-        skip_consulted = any(True for g in cli.closures_of(f) for _ in g.calls('crux_cli::codegen::node::ItemNode::should_skip'))
+        skip_consulted = any(True for g in [f] + cli.closures_of(f) for _ in g.calls('crux_cli::codegen::node::ItemNode::should_skip'))
         walks_declared = ids_fn in chain and chain[:2] == ['collect', 'filter_map']
+        if not walks_declared and chain[:1] in (['new'], ['with_capacity']):
+            # loop form: a fresh Vec, one push inside a loop whose iterator walks the declared id list front to back
+            pushes = [(bb, t) for bb, t in f.calls('alloc::vec::Vec::push') if 'node::ItemNode' in ' '.join(t.get('targs') or [])]
+            outer = []
+            for nb, nt in f.calls('core::iter::traits::iterator::Iterator::next'):
+                src = origins(f, nt['args'][0], extra_identity=[('core::iter::traits::collect::IntoIterator::into_iter', 0), ('core::slice::<impl [T]>::iter', 0),
+                                                                ('core::ops::deref::Deref::deref', 0), ('alloc::vec::Vec::as_slice', 0)])
+                if src and all(o.kind == 'call' and last_seg(o.term.get('callee') or '') == ids_fn for o in src):
+                    outer.append(nb)
+            reordering = [last_seg(t['callee']) for bb, t in f.calls() if last_seg(t.get('callee') or '') in
+                          ('rev', 'sort', 'sort_by', 'sort_by_key', 'sort_unstable', 'sort_unstable_by', 'sort_unstable_by_key', 'reverse', 'insert', 'swap', 'dedup')]
+            walks_declared = len(pushes) == 1 and len(outer) == 1 and not reordering and \
+                pushes[0][0] in f.reachable_after(outer[0]) and outer[0] in f.reachable_after(pushes[0][0])
+            if walks_declared:
+                chain = ['loop over %s(..)' % ids_fn, 'push']
         rep.expect('R20.b', walks_declared and skip_consulted, 'ItemNode::%s' % name,
                    'enumerates %s(..) in order, keeps the members found, consults should_skip (chain %s)' % (ids_fn, chain),
                    'ItemNode::%s no longer enumerates the declared id list (%s) in order with should_skip consulted: chain %s' % (name, ids_fn, chain))
